@@ -540,4 +540,14 @@ def write_evidence(args, agg, hellos, wall, n_runs, n_twins, n_echo, lines, rc):
 
 
 if __name__ == "__main__":
-    sys.exit(main())
+    try:
+        code = main()
+    except SystemExit:
+        raise
+    except BaseException:  # noqa: B902 - a crash of the harness is never a verdict
+        import traceback
+
+        traceback.print_exc()
+        print("HARNESS-ERROR: the runner itself failed (see traceback on stderr)")
+        code = 2
+    sys.exit(code)
